@@ -11,6 +11,8 @@ from vlib import env
 from vlib import faultruns as fr
 from vlib.programs import describe, gen_program
 
+from vlib.values import recording_in_domain
+
 PROPERTY = 'C18'
 LEVEL = 'fault_enumeration'
 RULE = ('base programs (instance and class-level operations, hostile output aliases, some with a 5-20 ms sleep) x termination '
@@ -104,6 +106,7 @@ def run_program(ctx, prog, rng, pidx):
         rec._random = SpyRandom(3)
         rec.enable_recording()
         complete_ids, incomplete_ids = [], []
+        poisoned = set()
         # the service class is invoked again and again: one class for all runs with an extractor configured (its behaviour varies
         # from run to run), one for the runs without an extractor
         builts = {}
@@ -134,6 +137,13 @@ def run_program(ctx, prog, rng, pidx):
                 if any(e[0] == 'save_failed' for e in res.spy_events):
                     continue
                 (incomplete_ids if interrupted else complete_ids).append((res.live.cls.__name__, saves[0][2]))
+                ro = spy.recordings.get(saves[0][1])
+                if ro is None or not recording_in_domain(getattr(ro, 'recording_data', {}), getattr(ro, 'recording_metadata', {})):
+                    # the third-party serializer does not restore this recording faithfully (or at all): what is read back is not judged,
+                    # nor are listings of its category (the in-memory / file cassettes decode every recording of the category)
+                    ctx.count('recordings_out_of_serializer_domain')
+                    poisoned.add(res.live.cls.__name__)
+                    continue
                 # what is stored must say the same as what was handed over
                 try:
                     from playback.tape_recorder import TapeRecorder as TR
@@ -151,6 +161,9 @@ def run_program(ctx, prog, rng, pidx):
         # default lookup excludes exactly the incomplete ones
         reader_rec = TapeRecorder(box.reader())
         for category in sorted(set(c for c, _ in complete_ids + incomplete_ids)):
+            if category in poisoned:
+                ctx.count('lookups_skipped_for_out_of_domain_recordings')
+                continue
             comp = [i for c, i in complete_ids if c == category]
             inc = [i for c, i in incomplete_ids if c == category]
             got = list(find_matching_recording_ids(reader_rec, category, RecordingLookupProperties(start_date=None)))
